@@ -179,6 +179,7 @@ func (fr *frame) execInstr(ins ssa.Instruction, st *State, reach *string) bool {
 		}
 		if fr.top {
 			fr.ex.returnReach = append(fr.ex.returnReach, *reach)
+			fr.ex.returnPos = append(fr.ex.returnPos, fr.ex.posOf(x.Pos()))
 		}
 		fr.checkJoined(*reach)
 		fr.rets = append(fr.rets, retPoint{reach: *reach, vals: vals, st: st})
